@@ -84,6 +84,8 @@ fixed(['C05'], '6532812', 'unscaled getBasisInverseColReal/RowReal/TimesVecReal 
 
 fixed(['C13', 'C12'], '0351ab5', 'ratFromString (after 22b70e2) computed 10^exponent exactly for any exponent: a literal like 1e999999999 kept the rational readers busy practically forever (libFuzzer hang in lp-rational / mps-rational); exponents beyond +-100000 are rejected as malformed')
 
+fixed(['C17', 'C07'], '1a8125c', 'SoPlexBase::operator= leaked the rational LP held by the assigned-to object (found by the copy operation with a rational LP present, LSan key leak:SoPlexBase::setIntParam|SoPlexBase::_syncLPRational)')
+
 # ------------------------------------------------------------------ open findings
 UND = r'(ABORT_CYCLING|RUNNING|UNKNOWN|ERROR|SINGULAR)'
 # --- simplex core
